@@ -90,6 +90,14 @@ def _flag_edge_justified(g: CFG, n: Node, lab, justified: EdgePred, start: Optio
                 return False
             d_start = g.entry
         v = getattr(d.ast, "value", None)
+        if none_mode and isinstance(v, ast.Name):
+            # `cb = on_error ... if cb is not None:` is the test `if on_error is not None:` in disguise
+            pseudo = Node(-1, "test", ast.Compare(left=v, ops=[ast.IsNot()], comparators=[ast.Constant(value=None)]), loops=d.loops)
+            try:
+                if justified(pseudo, "T" if want_value else "F"):
+                    continue
+            except Exception:  # noqa: BLE001
+                pass
         if v is not None and not isinstance(v, ast.Constant) and not none_mode:
             # `flag = E` followed by `if flag:` is the test `if E:` in disguise
             vv, ll = v, lab
